@@ -410,8 +410,10 @@ impl VirtualSign<'_> {
         if !self.pending_data.is_empty() {
             let data = mem::take(&mut self.pending_data);
             if self.width > 0 && self.height > 0 {
-                let page = Page::from_bytes(self.width, self.height, data).expect("Error loading page");
-                self.pages.push(page);
+                match Page::from_bytes(self.width, self.height, data) {
+                    Ok(page) => self.pages.push(page),
+                    Err(error) => warn!("Vsign {:04X} discarding incomplete page: {}", self.address.0, error),
+                }
             }
         }
     }
